@@ -333,6 +333,144 @@ def translate_round_pair():
     return "\n".join(out), len(lines)
 
 
+# ---- fallback: a recursive translation of nested matches over `*self`, `rhs.cmp(&5)` or the pair of them ----
+def _split_top(src, sep=","):
+    """split at separators at brace/paren depth 0; an arm whose body ends in '}' may omit the comma"""
+    parts, depth, cur = [], 0, []
+    i = 0
+    while i < len(src):
+        ch = src[i]
+        if ch in "({[":
+            depth += 1
+        elif ch in ")}]":
+            depth -= 1
+        if ch == sep and depth == 0:
+            parts.append("".join(cur)); cur = []
+        else:
+            cur.append(ch)
+            # block-bodied arm without a comma: '}' at depth 0 followed by the start of a new pattern
+            if ch == "}" and depth == 0 and "=>" in "".join(cur):
+                rest = src[i + 1:]
+                if re.match(r"\s*[A-Za-z_(][^;{}]*?=>", rest) and not re.match(r"\s*else\b", rest):
+                    parts.append("".join(cur)); cur = []
+        i += 1
+    if "".join(cur).strip():
+        parts.append("".join(cur))
+    return [x.strip() for x in parts if x.strip()]
+
+
+def _tr_cond2(c, aliases):
+    c = c.strip()
+    if c in aliases:
+        return aliases[c]
+    if c.startswith("!") and c[1:].strip() in aliases:
+        return "(!%s)" % aliases[c[1:].strip()]
+    return tr_cond(c)
+
+
+def _tr_body(e, aliases):
+    e = e.strip().rstrip(",").strip()
+    if e.startswith("match"):
+        return _tr_match(e, aliases)
+    m = re.fullmatch(r"if\s+(.*?)\s*\{\s*(.*?)\s*\}\s*else\s*\{\s*(.*?)\s*\}", e, flags=re.S)
+    if m:
+        c, a, b = _tr_cond2(m.group(1), aliases), _tr_body(m.group(2), aliases), _tr_body(m.group(3), aliases)
+        if None in (c, a, b):
+            return None
+        return "(if %s then %s else %s)" % (c, a, b)
+    if e.startswith("{") and e.endswith("}"):
+        return _tr_body(e[1:-1], aliases)
+    if e in ("up", "down", "lhs"):
+        return e
+    return None
+
+
+def _pat_cond(pat, kind):
+    """kind: 'mode' | 'ord' | 'pair'; returns a Lean Bool expression or None"""
+    pat = pat.strip()
+    if kind == "pair":
+        m = re.fullmatch(r"\(\s*([^,]+?)\s*,\s*([^,]+?)\s*\)", pat)
+        if not m:
+            return None
+        a, b = _pat_cond(m.group(1), "mode"), _pat_cond(m.group(2), "ord")
+        if a is None or b is None:
+            return None
+        return " && ".join(x for x in (a, b) if x != "true") or "true"
+    alts = [x.strip() for x in pat.split("|")]
+    if alts == ["_"]:
+        return "true"
+    out = []
+    for a in alts:
+        if kind == "mode" and a in MODES:
+            out.append("m == .%s" % a)
+        elif kind == "ord" and a in ORD:
+            out.append("c == %s" % ORD[a])
+        else:
+            return None
+    return out[0] if len(out) == 1 else "(" + " || ".join(out) + ")"
+
+
+def _tr_match(e, aliases):
+    m = re.match(r"match\s*(\(\s*\*self\s*,\s*rhs\.cmp\(&5\)\s*\)|\*self|self|rhs\.cmp\(&5\))\s*\{", e)
+    if not m:
+        return None
+    scrut = re.sub(r"\s+", "", m.group(1))
+    kind = "pair" if scrut.startswith("(") else ("ord" if scrut.startswith("rhs") else "mode")
+    inner = fn_body(e, r"match")
+    if inner is None:
+        return None
+    out = []
+    for arm in _split_top(inner):
+        mm = re.match(r"(.*?)=>(.*)", arm, flags=re.S)
+        if not mm:
+            return None
+        head, body = mm.group(1).strip(), mm.group(2)
+        g = None
+        mg = re.match(r"(.*?)\bif\b(.*)", head, flags=re.S)
+        if mg:
+            head, g = mg.group(1).strip(), _tr_cond2(mg.group(2), aliases)
+            if g is None:
+                return None
+        pc = _pat_cond(head, kind)
+        bd = _tr_body(body, aliases)
+        if pc is None or bd is None:
+            return None
+        out.append((" && ".join(x for x in (pc, g) if x and x != "true") or "true", bd))
+    expr = "(lhs + 100)"
+    for cond, bd in reversed(out):
+        expr = "(if %s then %s else %s)" % (cond, bd, expr)
+    return expr
+
+
+def translate_round_pair_nested():
+    body = fn_body(rsrc, r"pub\s+fn\s+round_pair\s*\(")
+    if body is None:
+        return None
+    if not re.search(r"if\s+rhs\s*==\s*0\s*&&\s*trailing_zeros\s*\{\s*return\s+lhs;\s*\}", body):
+        return None
+    if not re.search(r"let\s+up\s*=\s*lhs\s*\+\s*1\s*;", body) or not re.search(r"let\s+down\s*=\s*lhs\s*;", body):
+        return None
+    aliases = {}
+    for mm in re.finditer(r"let\s+(\w+)\s*=\s*([^;]+);", body):
+        t = tr_cond(mm.group(2))
+        if t is not None:
+            aliases[mm.group(1)] = t
+    k = body.find("match", body.find("let down"))
+    if k < 0:
+        return None
+    tail = body[k:]
+    ex = _tr_match(tail, aliases)
+    if ex is None:
+        return None
+    out = ["def roundPair (m : Mode) (neg : Bool) (lhs rhs : Nat) (tz : Bool) : Nat :=",
+           "  if rhs == 0 && tz then lhs else",
+           "  let up := lhs + 1",
+           "  let down := lhs",
+           "  let c := compare rhs 5",
+           "  " + ex]
+    return "\n".join(out), ex.count("then")
+
+
 def translate_needs_tz():
     body = fn_body(rsrc, r"fn\s+needs_trailing_zeros\s*\(")
     if body is None:
@@ -348,7 +486,7 @@ def translate_needs_tz():
             "  if %s then insig == %s else insig == %s" % (cond, m.group(2), m.group(3)))
 
 
-rp = translate_round_pair()
+rp = translate_round_pair() or translate_round_pair_nested()
 ntz = translate_needs_tz()
 
 # ------------------------------------------------------------------ parsing.rs limbs
